@@ -189,7 +189,7 @@ func c07AuthDiffOK(e *L2Env, before, after c07Snap, cs *c07Case, alsoAllowed str
 }
 
 type c07 struct {
-	preGas uint64 // when > 0, runCase delivers on a meter that already consumed this much
+	preGas     uint64 // when > 0, runCase delivers on a meter that already consumed this much
 	run        *mon.Run
 	rng        *mon.Rand
 	base       *L2Env
